@@ -18,6 +18,7 @@
 From Tx Require Import Lib.Base Lib.Sexp Gen.Generated.
 From Tx Require Import Model.AuthClient Spec.AuthClientSpec Model.AuthClientLoop.
 From Tx Require Import Proofs.AuthClientSpecLemmas Proofs.AuthClientProofs Proofs.AuthClientLiveProofs.
+From Tx Require Import Proofs.AuthClientLiveNoCookieProofs.
 Local Open Scope N_scope.
 
 (* The model's constants are those of the tree under test (regenerated on every
@@ -119,6 +120,36 @@ Theorem C07_completes :
     forall cfg unix, In cfg all_cfgs ->
       completed (handshake user sha1hex (handle user shared_keyring nonce sha1hex) cfg unix 40) = true.
 Proof. exact completes. Qed.
+
+(* The same when the client's keyring CANNOT answer the server's cookie challenge:
+   looking up the server's (context, id) raises (no keyring directory, a directory
+   the client must not use, no such context file) or finds no such id - anything
+   but a cookie.  The client answers the challenge with ERROR, is REJECTED and goes
+   on to the next mechanism.  For every configuration of the reference server whose
+   accepted set is not exactly [DBUS_COOKIE_SHA1] (24 of the 28), on both
+   transports, the handshake still completes within 40 deliveries.  User name,
+   client challenges and hash function are arbitrary (no hypothesis on them is
+   needed: the server never gets a response to check). *)
+Theorem C07_completes_without_cookie :
+  forall user lookup nonce sha1hex,
+    (forall c, lookup srv_ctx srv_cookie_id <> LCookie c) ->
+    forall cfg unix, In cfg all_cfgs -> accepted cfg <> [m_DBUS_COOKIE_SHA1] ->
+      completed (handshake user sha1hex (handle user lookup nonce sha1hex) cfg unix 40) = true.
+Proof. exact completes_without_cookie. Qed.
+
+(* ... and against a server that accepts DBUS_COOKIE_SHA1 only (the other 4
+   configurations) such a client cannot authenticate; it does not hang: after 40
+   deliveries it has closed the connection without authenticating, the server has
+   seen the connection drop, nothing is in flight (gave_up) and the run is over
+   (a further step changes nothing). *)
+Theorem C07_gives_up_without_cookie :
+  forall user lookup nonce sha1hex,
+    (forall c, lookup srv_ctx srv_cookie_id <> LCookie c) ->
+    forall cfg unix, In cfg all_cfgs -> accepted cfg = [m_DBUS_COOKIE_SHA1] ->
+      let y := handshake user sha1hex (handle user lookup nonce sha1hex) cfg unix 40 in
+      completed y = false /\ gave_up y = true /\
+      sys_step sha1hex (handle user lookup nonce sha1hex) cfg y = y.
+Proof. exact gives_up_without_cookie. Qed.
 
 (* ---- the tree before the repairs (Model: *_legacy) -------------------------- *)
 Definition no_user : bytes := [].
@@ -251,6 +282,40 @@ Proof.
   split; [vm_compute; auto 20|]. split; [exact T|]. split.
   - apply C07_completes; [intros _; exact T | exact H | vm_compute; auto 20].
   - vm_compute. reflexivity.
+Qed.
+
+(* the hypotheses of C07_completes_without_cookie / C07_gives_up_without_cookie are
+   met by the two keyrings of Model/AuthClientLoop.v (nothing can be looked up; the
+   context file lacks the id) and by 24 resp. 4 configurations; the detour is
+   real: against the server that accepts DBUS_COOKIE_SHA1 and ANONYMOUS the client
+   answers the challenge with ERROR, is rejected, offers ANONYMOUS and gets through
+   (not yet complete after 9 deliveries); with DBUS_COOKIE_SHA1 only it closes *)
+Example C07_without_cookie_runs :
+  (forall c, no_keyring srv_ctx srv_cookie_id <> LCookie c) /\
+  (forall c, other_keyring srv_ctx srv_cookie_id <> LCookie c) /\
+  length (filter (fun c => negb (cookie_only c)) all_cfgs) = 24%nat /\
+  length (filter cookie_only all_cfgs) = 4%nat /\
+  handshake_log no_user no_sha (handle no_user other_keyring no_nonce no_sha)
+      (mk_cfg [m_DBUS_COOKIE_SHA1; m_ANONYMOUS] false true) true 40 =
+    [TxRaw [0]; Tx (s_AUTH_ ++ s_EXTERNAL);
+     Rx (w_REJECTED ++ 32 :: m_DBUS_COOKIE_SHA1 ++ 32 :: m_ANONYMOUS); Tx (s_AUTH_ ++ s_COOKIE ++ [32]);
+     Rx (w_DATA ++ 32 :: hex_chars (srv_ctx ++ 32 :: srv_cookie_id ++ 32 :: srv_challenge)); Tx w_ERROR;
+     Rx (w_REJECTED ++ 32 :: m_DBUS_COOKIE_SHA1 ++ 32 :: m_ANONYMOUS);
+     Tx (s_AUTH_ ++ s_ANONYMOUS ++ [32] ++ hexlify s_txdbus);
+     Rx ex_ok; Tx w_NEGOTIATE_UNIX_FD; Rx w_ERROR; Tx w_BEGIN; Binary] /\
+  completed (handshake no_user no_sha (handle no_user other_keyring no_nonce no_sha)
+               (mk_cfg [m_DBUS_COOKIE_SHA1; m_ANONYMOUS] false true) true 9) = false /\
+  handshake_log no_user no_sha (handle no_user no_keyring no_nonce no_sha)
+      (mk_cfg [m_DBUS_COOKIE_SHA1] true true) false 40 =
+    [TxRaw [0]; Tx (s_AUTH_ ++ s_EXTERNAL);
+     Rx (w_REJECTED ++ 32 :: m_DBUS_COOKIE_SHA1); Tx (s_AUTH_ ++ s_COOKIE ++ [32]);
+     Rx (w_DATA ++ 32 :: hex_chars (srv_ctx ++ 32 :: srv_cookie_id ++ 32 :: srv_challenge)); Tx w_ERROR;
+     Rx (w_REJECTED ++ 32 :: m_DBUS_COOKIE_SHA1);
+     Tx (s_AUTH_ ++ s_ANONYMOUS ++ [32] ++ hexlify s_txdbus);
+     Rx (w_REJECTED ++ 32 :: m_DBUS_COOKIE_SHA1); Closed].
+Proof.
+  split; [exact no_keyring_unanswerable|]. split; [exact other_keyring_unanswerable|].
+  vm_compute. repeat split; reflexivity.
 Qed.
 
 (* ==== the same client on BYTES cut arbitrarily into reads ======================
